@@ -687,7 +687,7 @@ class CompartmentalSystem(Statement):
             raise TypeError(
                 f'Argument `builder` must be of type CompartmentalSystemBuilder: got `{type(builder)}`'
             )
-        if not isinstance(t, Expr) or isinstance(t, str):
+        if not (isinstance(t, Expr) or isinstance(t, str)):
             raise TypeError(f'Argument `t` must be of type str or Expr: got `{type(t)}`')
         t = Expr(t)
         return cls(builder=builder, t=t)
